@@ -72,6 +72,7 @@ def c12(tier, rep):
     _rows(rep, 4 if tier == "quick" else 5, (124, 92, 8203, 65279, 32), (32,), "invisible", ("count", "text", "col", "ast", "exception"))
     _rows(rep, 5 if tier == "quick" else 6, (124, 101, 769, 32, 3635), (32,), "combining", ("count", "text", "col", "ast", "exception"))
     _rows(rep, 5 if tier == "quick" else 6, (124, 35, 32, 9, 120), (32,), "hash", ("count", "text", "col", "ast", "exception"))
+    _rows(rep, 5 if tier == "quick" else 6, (124, 92, 0, 1, 110), (32,), "nul", ("count", "text", "col", "ast", "exception"))
     E.traces(rep, E.record_all(std_sources(tier, 300, 3000)), "corpus+gen+noisy")
 
 
@@ -307,6 +308,7 @@ def _compile_family(tier, rep, inv):
            invariants=[inv], label="struct")
     E.traces(rep, E.record_all(std_sources(tier, 300, 3000) + E.src_generated(60 if q else 1000, SEED + 1, MIXED_CASE_DIALECTS)), "corpus+gen+noisy+dialects")
     E.many_uses_pass(rep, 2500 if tier == "quick" else 20000)
+    E.ast_variants_pass(rep, E.src_corpus() + E.src_limits() + E.src_generated(60 if q else 600, SEED + 6))
     E.compiler_reuse_pass(rep, std_sources(tier, 150, 1500))
 
 
@@ -397,6 +399,17 @@ def c17(tier, rep):
     rep.extra["rule"] = ("streams: every sequence of <= N pool sources x 8 option sets (spec -> code); recorded streams of 1..5 corpus/generated/noisy "
                          "sources with random option sets (code -> spec), every envelope reduced to a shape checked against Messages.tla; CLI output round-trip")
     _stream_part(tier, rep, lambda what: True)
+    # the command line in front of the stream: every command line over the flags and a pool of files (MC_Cli), each run as a real process
+    import cli as CLI
+    cases, badc, res = CLI.model_check_and_replay(3 if tier == "quick" else 4)
+    rep.add_tlc("MC_Cli", res, f"{len(cases)} command lines (flags anywhere / repeated, files in any order and repeated): Inv_FlagsAnywhere, Inv_FileOrder, Inv_OneStream; each run through scripts/generate_events.py")
+    rep.traces += len(cases)
+    for c in cases:
+        rep.case(("command-line", tuple(c["argv"])), nontrivial=any(not w.startswith("--") for w in c["argv"]))
+    for inv in sorted(set(res.invariant_violations)):
+        rep.violation({"kind": "spec-invariant", "invariant": inv}, {"engine": "MC_Cli", "what": f"{inv} violated", "tlc_tail": res.out[-3000:]})
+    for b in badc[:20]:
+        rep.violation({"kind": "command-line"}, {"engine": "MC_Cli", "what": "scripts/generate_events.py prints something else than the specification's stream for this command line", **b})
     # the command line tool: JSON text round trip equals enum()
     d = tempfile.mkdtemp(prefix="verif-c17-")
     try:
@@ -669,6 +682,7 @@ def c09(tier, rep):
                      + "\n      " + t + "\n      \"\"\"\n    Examples:\n      | " + " | ".join(map(esc, hs)) + " |\n      | " + " | ".join(map(esc, vs)) + " |\n", "en"))
     E.grow(rep, M.STRUCT, [(PFX_BG_ARG, 2 if tier == "quick" else 3), (PFX_OUTLINE, 2)], invariants=["Inv_C09"], label="struct")
     E.compiler_reuse_pass(rep, std_sources(tier, 150, 1500))
+    E.ast_variants_pass(rep, E.src_corpus() + E.src_limits() + docs[:40] + E.src_generated(60 if tier == "quick" else 600, SEED + 6))
     E.traces(rep, E.record_all(docs + std_sources(tier, 200, 2000)), "interp-text+corpus+gen")
 
 
@@ -711,6 +725,7 @@ def c10(tier, rep):
         docs.append((f"steps:{d}", body, d))
     E.traces(rep, E.record_all(docs + std_sources(tier, 200, 2000)), "all-step-keywords+corpus+gen")
     E.compiler_reuse_pass(rep, std_sources(tier, 150, 1500))
+    E.ast_variants_pass(rep, E.src_corpus() + E.src_limits() + docs + E.src_generated(60 if tier == "quick" else 600, SEED + 6))
     # one matcher re-used across documents that switch dialect by header: the keyword -> type map must be the dialect's own each time
     hdr = [(f"hdr:{d}", f"# language: {d}\n" + body, "en") for (n, body, d) in docs[:: 2 if tier == "quick" else 1]]
     E.reuse_pass(rep, hdr + [("plain-en", "Feature: f\n  Scenario: s\n    Given a\n    And b\n    * c\n", "en")] + hdr[:5], "reuse-headers")
